@@ -56,7 +56,7 @@ pub fn judge_levels(r: &mut RunResult) {
                     && b.spec.ks == op.spec.ks
                     && b.spec.ids.iter().any(|i| op.spec.ids.contains(i))
                     && b.invoked_ms <= a1
-                    && b.returned_ms.unwrap_or(u64::MAX) >= a0
+                    && (b.returned_ms.unwrap_or(u64::MAX) >= a0 || b.result.as_deref() == Some("cancelled"))
             });
         if twin {
             r.out.probe("overlapping_same_node_same_id_operations_skipped");
